@@ -80,6 +80,10 @@ pub struct ReplayOutcome {
     pub error: Option<String>,
 }
 
+/// An attributed case is re-run alone with this multiple of the per-case budget before its abort or
+/// hang counts.
+const RERUN_FACTOR: u64 = 6;
+
 struct Job {
     sub_idx: usize,
     shard: usize,
@@ -338,7 +342,12 @@ pub fn run_property(prop: &Property, tier: Tier) -> i32 {
     }
     let njobs = jobs.len();
     let queue = Arc::new(Mutex::new(jobs));
-    let results: Arc<Mutex<Vec<(usize, usize, Result<ShardResult, String>, Option<serde_json::Value>)>>> = Arc::new(Mutex::new(Vec::new()));
+    let results: Arc<Mutex<Vec<(usize, usize, Result<ShardResult, String>, Option<serde_json::Value>, Option<ReplayOutcome>)>>> = Arc::new(Mutex::new(Vec::new()));
+    // set once an abnormal end (abort, hang) has been reproduced alone and is not a listed finding:
+    // the run is a VIOLATION whatever the remaining jobs say, and every further hang would cost its
+    // full budget, so the jobs not yet started are skipped (counted below)
+    let stop_after_confirmed_abnormal = Arc::new(std::sync::atomic::AtomicBool::new(false));
+    let skipped_jobs = Arc::new(std::sync::atomic::AtomicU64::new(0));
     let exe = std::env::current_exe().expect("current_exe");
     let nworkers = prop.max_parallel.max(1).min(njobs.max(1));
     let partials: Arc<Mutex<Vec<(usize, Option<ShardResult>)>>> = Arc::new(Mutex::new(Vec::new()));
@@ -351,10 +360,16 @@ pub fn run_property(prop: &Property, tier: Tier) -> i32 {
             let exe = exe.clone();
             let base_tmp = base_tmp.clone();
             let prop_ref = &*prop;
+            let stop = stop_after_confirmed_abnormal.clone();
+            let skipped = skipped_jobs.clone();
             scope.spawn(move || {
                 loop {
                     let job = { queue.lock().unwrap().pop_front() };
                     let Some(job) = job else { break };
+                    if stop.load(std::sync::atomic::Ordering::Relaxed) {
+                        skipped.fetch_add(1, std::sync::atomic::Ordering::Relaxed);
+                        continue;
+                    }
                     let s = &prop_ref.subs[job.sub_idx];
                     let out = base_tmp.join(format!("{}-{}.json", s.name(), job.shard));
                     let cur = base_tmp.join(format!("{}-{}.cur", s.name(), job.shard));
@@ -366,6 +381,7 @@ pub fn run_property(prop: &Property, tier: Tier) -> i32 {
                     let mut skip_inner: Option<(u64, u64)> = None;
                     let mut acc: Option<ShardResult> = None;
                     let mut restarts = 0u32;
+                    let mut attr_outcome: Option<ReplayOutcome> = None;
                     let res: (Result<ShardResult, String>, Option<serde_json::Value>) = loop {
                         let _ = std::fs::remove_file(&out);
                         let _ = std::fs::remove_file(&cur);
@@ -409,7 +425,7 @@ pub fn run_property(prop: &Property, tier: Tier) -> i32 {
                             }
                         }
                         // a single inner evaluation needs only a fraction of the whole case's budget
-                        let rerun_budget = if narrowed { (s.opts().case_budget_s * 10).min(40) } else { s.opts().case_budget_s * 10 };
+                        let rerun_budget = if narrowed { (s.opts().case_budget_s * 10).min(40) } else { s.opts().case_budget_s * RERUN_FACTOR };
                         let why = match end {
                             ChildEnd::Exited(0) => match std::fs::read(&out).ok().and_then(|b| serde_json::from_slice::<ShardResult>(&b).ok()) {
                                 Some(r) => {
@@ -462,6 +478,11 @@ pub fn run_property(prop: &Property, tier: Tier) -> i32 {
                                     restarts += 1;
                                     continue;
                                 }
+                                // reproduced alone and not listed: a violation is certain
+                                if o.error.is_none() && !o.pass && !fails.is_empty() && hang_ok {
+                                    stop.store(true, std::sync::atomic::Ordering::Relaxed);
+                                }
+                                attr_outcome = Some(o);
                             }
                         }
                         // not a listed known finding: hand over to the attribution below, keeping what was counted
@@ -475,7 +496,7 @@ pub fn run_property(prop: &Property, tier: Tier) -> i32 {
                         break (Err(why), cur_case);
                     };
                     let _ = std::fs::remove_dir_all(&tmp);
-                    results.lock().unwrap().push((job.sub_idx, job.shard, res.0, res.1));
+                    results.lock().unwrap().push((job.sub_idx, job.shard, res.0, res.1, attr_outcome));
                 }
             });
         }
@@ -488,7 +509,8 @@ pub fn run_property(prop: &Property, tier: Tier) -> i32 {
     let mut results = std::mem::take(&mut *results.lock().unwrap());
     results.sort_by_key(|r| (r.0, r.1));
     let mut seen_fail_sigs: BTreeSet<String> = BTreeSet::new();
-    for (si, sh, res, cur_case) in results {
+    let n_skipped = skipped_jobs.load(std::sync::atomic::Ordering::Relaxed);
+    for (si, sh, res, cur_case, attr_outcome) in results {
         let s = &prop.subs[si];
         let agg = aggs.entry(si).or_insert_with(|| SubAgg { cases: 0, evals: 0, keys: BTreeSet::new(), labels: BTreeMap::new(), wall_s: 0.0 });
         match res {
@@ -532,8 +554,12 @@ pub fn run_property(prop: &Property, tier: Tier) -> i32 {
                 let rf = ReplayFile { property: prop.id.into(), sub: s.name().into(), seed, tier: tier.name().into(), case: case.clone(), fails: vec![] };
                 let _ = std::fs::write(&tmp_replay, serde_json::to_vec(&rf).unwrap());
                 let narrowed = case.get("only").map(|v| v.is_number()).unwrap_or(false);
-                let budget = if narrowed { (s.opts().case_budget_s * 10).min(40) } else { s.opts().case_budget_s * 10 };
-                let o = replay_in_child(&tmp_replay, &s.opts().env, Duration::from_secs(budget));
+                let budget = if narrowed { (s.opts().case_budget_s * 10).min(40) } else { s.opts().case_budget_s * RERUN_FACTOR };
+                // (the worker has usually re-run it already when it looked for a listed finding)
+                let o = match attr_outcome {
+                    Some(o) => o,
+                    None => replay_in_child(&tmp_replay, &s.opts().env, Duration::from_secs(budget)),
+                };
                 if o.pass || o.error.is_some() {
                     inconclusive.push(format!("sub={} shard={}: {} (did not reproduce alone: {:?})", s.name(), sh, why, o.error));
                     continue;
@@ -651,6 +677,12 @@ pub fn run_property(prop: &Property, tier: Tier) -> i32 {
     for (path, summary) in &violations {
         println!("VIOLATION property={} replay={}", prop.id, path);
         println!("  {}", summary);
+    }
+    if n_skipped > 0 {
+        println!("note: {n_skipped} shard jobs were not started after an abort/hang had been reproduced alone (the run is a violation whatever they would say)");
+        if violations.is_empty() {
+            inconclusive.push(format!("{n_skipped} shard jobs not run"));
+        }
     }
     for m in &inconclusive {
         println!("INCONCLUSIVE: property={} {}", prop.id, m);
